@@ -331,7 +331,7 @@ func init() {
 	registerIntrinsic("(*"+qPkg+"Quantity).AsApproximateFloat64", func(i *interpreter, fr *frame, fn *ssa.Function, a []value) value {
 		m := i.qMilli(recv(a))
 		if s, ok := m.(symInt); ok {
-			return symFloat{&Term{S: "(fp.div RNE ((_ to_fp 11 53) RNE (to_real " + s.t.S + ")) " + fpConst(1000).S + ")", Sort: SFP}}
+			return symFloat{t: &Term{S: "(fp.div RNE ((_ to_fp 11 53) RNE (to_real " + s.t.S + ")) " + fpConst(1000).S + ")", Sort: SFP}}
 		}
 		return float64(asInt64(m)) / 1000
 	})
